@@ -1,14 +1,15 @@
 #!/bin/bash
 # Build the framework offline from files on disk: full .vo build, extraction, OCaml driver, Go harness (warm cache).
-set -e
+set -e -o pipefail
 cd "$(dirname "$0")"
 export GOFLAGS=-mod=mod GOPROXY=off GOSUMDB=off GOTOOLCHAIN=local
 mkdir -p .build/ocaml evidence replays
+python3 tools/gen.py
 # no admits / axioms / disabled checks anywhere in the development
 if grep -rnE 'Admitted|admit\.|^\s*Axiom|^\s*Parameter|^\s*Conjecture|Unset Guard|bypass_check|type-in-type|impredicative-set|Admit Obligations' coq --include='*.v'; then
   echo "forbidden construct found" >&2; exit 1
 fi
-(cd coq && coq_makefile -f _CoqProject -o Makefile >/dev/null && timeout 3000 make -j16 2>&1 | tail -5)
+(cd coq && rm -f .Makefile.d && coq_makefile -f _CoqProject -o Makefile >/dev/null && timeout 3000 make -j16 2>&1 | tail -5)
 (cd .build/ocaml && coqc -Q ../../coq Fzf ../../coq/extract/Extract.v >/dev/null && cp ../../ocaml/driver.ml . \
   && ocamlfind ocamlopt -w -a -O3 fzfmodel.mli fzfmodel.ml driver.ml -o model_driver 2>/dev/null)
 cp /repo/go.sum harness/go.sum
